@@ -23,6 +23,11 @@ var zzC16Pages = []string{
 	/* 9 */ `<div><template include="d.vuego"></template><template include="slotc.vuego"><template include="d.vuego"></template></template></div>`,
 	// v-once elements nested inside v-once elements are elements of their own
 	/* 10 */ `<section v-once><b v-once>AAA</b><i v-once>BBB</i></section><aside v-once><u v-once>EEE</u></aside>`,
+	// a marked element that is a branch: the v-else of a loop, a later branch
+	// of a chain; the surrounding markup is instantiated once per group / kind
+	/* 11 */ `<section v-for="g in groups"><li v-for="x in g">{{ x }}</li><p v-else v-once>AAA</p></section>`,
+	/* 12 */ `<div v-for="k in kinds"><p v-if="k == 1">one</p><p v-else-if="k == 2" v-once>BBB</p><p v-else v-once>AAA</p></div>`,
+	/* 13 */ `<div v-for="k in kinds"><p v-if="k == 2" v-once>BBB</p><p v-else-if="k == 3" v-once>AAA</p><i v-else>one</i></div>`,
 }
 
 // expected number of occurrences of each marker
@@ -38,6 +43,9 @@ var zzC16Want = []map[string]int{
 	{"DDD": 1, "WWW": 1},
 	{"DDD": 1, "SSS": 1},
 	{"AAA": 1, "BBB": 1, "EEE": 1},
+	nil, // 11 to 13: computed from the data
+	nil,
+	nil,
 }
 
 // other directives the marked element may carry
@@ -67,7 +75,28 @@ func VerifC16_Once() {
 		extra = zzC16Extras[zzChoice("extra", len(zzC16Extras))]
 	}
 	fsys := zzC16FS(extra)
-	tpl := NewFS(fsys).Fill(map[string]any{"items": []int{1, 2, 3}, "yes": true, "t": "T"})
+	data := map[string]any{"items": []int{1, 2, 3}, "yes": true, "t": "T"}
+	want := zzC16Want[k]
+	if k >= 11 {
+		// which instantiations select the marked branch is arbitrary
+		want = map[string]int{"AAA": 0, "BBB": 0}
+		var groups, kinds []any
+		for g := 0; g < 3; g++ {
+			kind := 1 + zzChoice("kind", 3)
+			kinds = append(kinds, kind)
+			if kind == 3 {
+				groups = append(groups, []any{})
+				want["AAA"] = 1
+			} else {
+				groups = append(groups, []any{"x"})
+			}
+			if kind == 2 && k >= 12 {
+				want["BBB"] = 1
+			}
+		}
+		data["groups"], data["kinds"] = groups, kinds
+	}
+	tpl := NewFS(fsys).Fill(data)
 	name := "p" + string(rune('a'+k)) + ".vuego"
 	render := func() (string, error) {
 		w := &zzWriter{limit: 1 << 20}
@@ -79,7 +108,7 @@ func VerifC16_Once() {
 			err = tpl.RenderString(contextBackground(), w, strings.ReplaceAll(zzC16Pages[k], "EXTRA", extra))
 		default:
 			vue := NewVue(fsys)
-			err = vue.RenderFragment(w, name, map[string]any{"items": []int{1, 2, 3}, "yes": true, "t": "T"})
+			err = vue.RenderFragment(w, name, data)
 		}
 		return string(w.got), err
 	}
@@ -88,7 +117,7 @@ func VerifC16_Once() {
 	zzNote("page", zzC16Pages[k])
 	zzNote("out", out1)
 	zzAssert(err1 == nil && err2 == nil, "C16.once.render-error")
-	for m, n := range zzC16Want[k] {
+	for m, n := range want {
 		zzAssert(strings.Count(out1, m) == n, "C16.once.emitted-exactly-once")
 	}
 	zzAssert(out1 == out2, "C16.once.second-render-differs")
